@@ -506,3 +506,132 @@ func vfH_C10_deliver() {
 		vfrt.Assert(d == 0, "deliver/data-beyond-a-window-stays-queued")
 	}
 }
+
+//vf:assume C10-twoblocks: two header blocks in sequence through one relay direction (stream 1, then stream 3), each sent whole or continued in a second frame at a symbolic split; the first block adds an entry to the HPACK dynamic table (literal with incremental indexing) which the second block references by index; the relay's output is decoded by a fresh HPACK decoder
+
+//vf:harness property=C10 nopanic reach=twoblocks-both-whole,twoblocks-continued steps=8000000
+func vfH_C10_twoblocks() {
+	off := false
+	var dOut, pOut bytes.Buffer
+	cToS := newRelay(ClientToServer, "c", "s", nil, http2.NewFramer(&dOut, nil), &off)
+	sToC := newRelay(ServerToClient, "s", "c", nil, http2.NewFramer(&pOut, nil), &off)
+	cToS.peer, sToC.peer = sToC, cToS
+	cToS.output, sToC.output = make(chan queuedFrame, 64), make(chan queuedFrame, 64)
+	cToS.processors = &streamProcessors{create: func(id uint32) *Processors {
+		return &Processors{cToS: &relayAdapter{id, cToS}, sToC: &relayAdapter{id, sToC}}
+	}}
+	sToC.processors = cToS.processors
+
+	// block A: :method GET, :scheme http, :path /, literal with incremental indexing x-k: v1 (enters the dynamic table)
+	blockA := []byte{0x82, 0x86, 0x84, 0x40, 0x03, 'x', '-', 'k', 0x02, 'v', '1'}
+	// block B: :method GET, :scheme http, :path /, indexed field 62 (the entry block A added)
+	blockB := []byte{0x82, 0x86, 0x84, 0xbe}
+	var raw []byte
+	continued := false
+	for i, blk := range [][]byte{blockA, blockB} {
+		id := uint32(1 + 2*i)
+		if vfrt.Choice("continued", 2) == 1 {
+			continued = true
+			cut := vfrt.Choice("cut", len(blk)+1)
+			raw = append(raw, vfFrame(1, 0x01, id, blk[:cut])...) // HEADERS, END_STREAM, no END_HEADERS
+			raw = append(raw, vfFrame(9, 0x04, id, blk[cut:])...) // CONTINUATION, END_HEADERS
+		} else {
+			raw = append(raw, vfFrame(1, 0x05, id, blk)...)
+		}
+	}
+	if continued {
+		vfrt.Reach("twoblocks-continued")
+	} else {
+		vfrt.Reach("twoblocks-both-whole")
+	}
+	fr := http2.NewFramer(nil, bytes.NewReader(raw))
+	for {
+		f, err := fr.ReadFrame()
+		if err != nil {
+			break
+		}
+		vfrt.Assert(cToS.processFrame(f) == nil, "twoblocks/frame-processed")
+	}
+	for len(cToS.output) > 0 {
+		f := <-cToS.output
+		vfrt.Assert(f.send(cToS.dest) == nil, "twoblocks/frame-sent")
+	}
+	// what the receiving endpoint decodes: the two header lists, in order, on their streams, END_STREAM kept
+	dec := hpack.NewDecoder(4096, nil)
+	out := http2.NewFramer(nil, bytes.NewReader(dOut.Bytes()))
+	var lists [][]hpack.HeaderField
+	var ids []uint32
+	var block []byte
+	for {
+		f, err := out.ReadFrame()
+		if err != nil {
+			break
+		}
+		switch f := f.(type) {
+		case *http2.HeadersFrame:
+			block = append([]byte{}, f.HeaderBlockFragment()...)
+			vfrt.Assert(f.StreamEnded(), "twoblocks/end-stream-kept")
+			if f.HeadersEnded() {
+				l, derr := dec.DecodeFull(block)
+				vfrt.Assert(derr == nil, "twoblocks/forwarded-block-decodes")
+				lists, ids = append(lists, l), append(ids, f.StreamID)
+			}
+		case *http2.ContinuationFrame:
+			block = append(block, f.HeaderBlockFragment()...)
+			if f.HeadersEnded() {
+				l, derr := dec.DecodeFull(block)
+				vfrt.Assert(derr == nil, "twoblocks/forwarded-block-decodes")
+				lists, ids = append(lists, l), append(ids, f.StreamID)
+			}
+		}
+	}
+	vfrt.Assert(len(lists) == 2 && ids[0] == 1 && ids[1] == 3, "twoblocks/two-header-lists-on-their-streams-in-order")
+	if len(lists) != 2 {
+		return
+	}
+	want := []hpack.HeaderField{{Name: ":method", Value: "GET"}, {Name: ":scheme", Value: "http"}, {Name: ":path", Value: "/"}, {Name: "x-k", Value: "v1"}}
+	vfrt.Assert(vfSameHeaders(lists[0], want), "twoblocks/first-header-list-unchanged")
+	vfrt.Assert(vfSameHeaders(lists[1], want), "twoblocks/second-header-list-resolved-through-the-dynamic-table")
+}
+
+//vf:assume C10-zerocost: PRIORITY (symbolic dependency, weight, exclusive flag) and RST_STREAM (symbolic code) handed to the relay by a processor are written to the receiving endpoint unchanged
+
+//vf:harness property=C10 nopanic reach=zerocost-priority,zerocost-rst
+func vfH_C10_zerocost() {
+	off := false
+	var wire bytes.Buffer
+	r := newRelay(ClientToServer, "c", "s", nil, http2.NewFramer(&wire, nil), &off)
+	r.output = make(chan queuedFrame, 64)
+	dep := vfrt.Uint32("stream-dependency") & 0x7fffffff
+	pp := http2.PriorityParam{StreamDep: dep, Weight: vfrt.Byte("weight"), Exclusive: vfrt.Bool("exclusive")}
+	code := vfrt.Uint32("error-code")
+	kind := vfrt.Choice("frame", 2)
+	if kind == 0 {
+		vfrt.Reach("zerocost-priority")
+		vfrt.Assume(dep != 1) // a stream cannot depend on itself
+		r.priority(1, pp)
+	} else {
+		vfrt.Reach("zerocost-rst")
+		r.rstStream(1, http2.ErrCode(code))
+	}
+	n := 0
+	for len(r.output) > 0 {
+		f := <-r.output
+		vfrt.Assert(f.send(r.dest) == nil, "zerocost/frame-sent")
+		n++
+	}
+	vfrt.Assert(n == 1, "zerocost/exactly-one-frame-forwarded")
+	f, err := http2.NewFramer(nil, bytes.NewReader(wire.Bytes())).ReadFrame()
+	vfrt.Assert(err == nil, "zerocost/forwarded-frame-parses")
+	if err != nil {
+		return
+	}
+	switch f := f.(type) {
+	case *http2.PriorityFrame:
+		vfrt.Assert(kind == 0 && f.StreamID == 1 && f.StreamDep == pp.StreamDep && f.Weight == pp.Weight && f.Exclusive == pp.Exclusive, "zerocost/priority-unchanged")
+	case *http2.RSTStreamFrame:
+		vfrt.Assert(kind == 1 && f.StreamID == 1 && uint32(f.ErrCode) == code, "zerocost/rst-code-unchanged")
+	default:
+		vfrt.Assert(false, "zerocost/frame-type-kept")
+	}
+}
